@@ -408,6 +408,16 @@ func cpSpec(ops []string, n, m uint8) ProcSpec {
 	return ProcSpec{Rsize: 8, R: 2, N: n, M: m, L: 0, O: 4, Ops: o, Mode: "ha"}
 }
 
+func dedupStrings(s []string) []string {
+	var o []string
+	for i, x := range s {
+		if i == 0 || x != s[i-1] {
+			o = append(o, x)
+		}
+	}
+	return o
+}
+
 func subsets(n int) [][]int {
 	var r [][]int
 	for mask := 1; mask < 1<<n; mask++ {
@@ -632,6 +642,43 @@ func (e *enumeration) enumBM(thorough bool) {
 					j.Bonds = append(j.Bonds, [2]string{in, outs[k-1]})
 				}
 			}
+			e.jobs = append(e.jobs, j)
+		}
+	}
+	// every opcode on two (thorough: also three) processors of ONE machine through the real writer: whatever the
+	// writer keeps per processor (helper declarations an opcode adds once per module, runtime bookkeeping)
+	// must not leak from the first processor into the next one
+	var once []string
+	once = append(once, staticOps()...)
+	once = append(once, dynOps()...)
+	for _, op := range once {
+		for np := 2; np <= maxProcs; np++ {
+			j := Job{Kind: "bm", Group: "same-op-on-every-processor", Real: true, In: 1, Out: 1}
+			for p := 0; p < np; p++ {
+				ps := ProcSpec{Rsize: 8, R: 2, N: 1, M: 1, L: 3, O: 4, Mode: "ha", Ops: nil}
+				ops := []string{"i2rw", "nop", "r2owa", op}
+				sort.Strings(ops)
+				ps.Ops = dedupStrings(ops)
+				if opThr[op] {
+					ps.Threaded = 1
+				}
+				j.Procs = append(j.Procs, ps)
+			}
+			if k, y := opSO[op]; y {
+				var att []int
+				for p := 0; p < np; p++ {
+					att = append(att, p)
+				}
+				j.SOs = []string{soCtor(k, 0, att)}
+				for p := 0; p < np; p++ {
+					j.Links = append(j.Links, [2]int{p, 0})
+				}
+			}
+			j.Bonds = append(j.Bonds, [2]string{"i0", "p0i0"})
+			for p := 0; p+1 < np; p++ {
+				j.Bonds = append(j.Bonds, [2]string{"p" + strconv.Itoa(p) + "o0", "p" + strconv.Itoa(p+1) + "i0"})
+			}
+			j.Bonds = append(j.Bonds, [2]string{"p" + strconv.Itoa(np-1) + "o0", "o0"})
 			e.jobs = append(e.jobs, j)
 		}
 	}
